@@ -468,7 +468,8 @@ func hostilePhases(which string) []*fw.Phase {
 			tail := (idx / 4) % 3
 			b := arenaVariants[(idx/12)%nv]
 			es := []gen.TarEntry{{Name: "q/b", Type: "dir", Mode: 0755}, {Name: "q/b/top", Type: "link", Link: "../..", Mode: 0777}}
-			targets := []string{"q/b/top/../secret", "q/b/top/../sib/keep", "q/b/top/../ro-file", "q/b/top/../sib"}
+			// (the second and fourth pass through the same link twice, which is not a loop)
+			targets := []string{"q/b/top/../secret", "q/b/top/q/b/top/../sib/keep", "q/b/top/../ro-file", "q/b/top/q/b/top/q/b/top/../sib"}
 			for i := 0; i < n; i++ {
 				es = append(es, gen.TarEntry{Name: fmt.Sprintf("e%d", i), Type: "link", Link: targets[i], Mode: 0777})
 			}
